@@ -146,22 +146,38 @@ def discharge(o, timeout_ms=10000):
     if o.expect_sat == 'any':
         # satisfiable on at least one goal (unknown counts as possibly satisfiable)
         for hyps, goal, where in o.goals:
-            s = z3.Solver()
-            s.set('timeout', min(timeout_ms, 3000))
-            for h in hyps:
-                s.add(h)
-            if s.check() != z3.unsat:
+            # refutable by E-matching alone (the mode that discharges most goals) or by the default mode: unreachable
+            dead = False
+            for em in (True, False):
+                s = _mk(hyps, z3.BoolVal(True), min(timeout_ms, 3000), em) if False else z3.Solver()
+                s.set('timeout', min(timeout_ms, 3000))
+                if em:
+                    s.set('smt.mbqi', False)
+                    s.set('auto_config', False)
+                for h in hyps:
+                    s.add(h)
+                if s.check() == z3.unsat:
+                    dead = True
+                    break
+            if not dead:
                 o.status, o.backend, o.time = 'sat', 'z3', time.time() - t0
                 return o
         o.status, o.detail, o.backend, o.time = 'vacuous', 'no exit is reachable: assumptions are contradictory', 'z3', time.time() - t0
         return o
     for hyps, goal, where in o.goals:
         if o.expect_sat:
-            s = z3.Solver()
-            s.set('timeout', timeout_ms)
-            for h in hyps:
-                s.add(h)
-            r = s.check()
+            r = z3.unknown
+            for em in (True, False):
+                s = z3.Solver()
+                s.set('timeout', timeout_ms if not em else min(timeout_ms, 3000))
+                if em:
+                    s.set('smt.mbqi', False)
+                    s.set('auto_config', False)
+                for h in hyps:
+                    s.add(h)
+                r = s.check()
+                if r == z3.unsat:
+                    break
             if r == z3.unsat:
                 o.status = 'vacuous'
                 o.detail = 'hypotheses unsatisfiable at %s' % where
